@@ -141,6 +141,21 @@ def enc_cfg(vars_, biases):
 
 
 # ------------------------------------------------------------------ parsing of what the implementation wrote
+class BadToken(float):
+    """a token of a data line that is not a number (e.g. two fields run together); behaves as NaN"""
+    def __new__(cls, text):
+        o = float.__new__(cls, "nan")
+        o.text = text
+        return o
+
+
+def tofloat(t):
+    try:
+        return float(t)
+    except ValueError:
+        return BadToken(t)
+
+
 def parse_fields(tokens):
     """data tokens -> list of fields; a parenthesised vector '( a , b , c )' is one field"""
     out = []
@@ -152,11 +167,11 @@ def parse_fields(tokens):
             i += 1
             while i < len(tokens) and tokens[i] != ")":
                 if tokens[i] != ",":
-                    vec.append(float(tokens[i]))
+                    vec.append(tofloat(tokens[i]))
                 i += 1
             out.append(vec)
         else:
-            out.append(float(t))
+            out.append(tofloat(t))
         i += 1
     return out
 
@@ -508,6 +523,78 @@ def forces_energy_oracle(run, c, j, pos, lab, fields, step, replay, efh=None, fi
                 run.violation("trajfields:bias-energy", "step %d column %s holds %r, k/2 |x - c|^2 = %r" % (step, nm, got, float(want)), replay)
 
 
+# ------------------------------------------------------------------ composition with C06's restraint model
+_C06 = {}
+
+
+def c06_tools():
+    """C06's check module (case encoding) and its extracted, proved restraint model"""
+    if not _C06:
+        import importlib.util
+        pth = os.path.join(V.ROOT, "props", "C06", "check.py")
+        spec = importlib.util.spec_from_file_location("check_C06_for_C19", pth)
+        mod = importlib.util.module_from_spec(spec)
+        spec.loader.exec_module(mod)
+        _C06["mod"] = mod
+        _C06["exe"] = V.extract_model("C06", mod.EXTRACT, mod.DRIVER, ["ocaml/fops.ml"])
+    return _C06["mod"], _C06["exe"]
+
+
+def c06_expectations(c):
+    """for every restraint defined from the start on plain scalar variables and not touched by script events:
+    per calc index, what C06's model says the energy, centres and accumulated work are.  -> {bias id: [dict per calc]}"""
+    elig = []
+    touched = set(e[2] for e in c["events"] if e[0] == "set" and e[1] == "bias")
+    for b in c["biases"]:
+        if b["kind"] not in ("harmonic", "linear", "walls") or b["id"] in touched:
+            continue
+        vs = [[v for v in c["vars"] if v["id"] == i][0] for i in b["vars"]]
+        if any(v["type"] != "z" or v.get("extlag") for v in vs):
+            continue
+        elig.append(b)
+    if not elig:
+        return {}
+    mod, exe = c06_tools()
+
+    def wallsinit(hl, hu, lk, uk):
+        rc, out, err = V.run_lines(exe, ["WALLSINIT %d %d %s %s" % (1 if hl else 0, 1 if hu else 0, hx(lk), hx(uk))])
+        t = out[0].split()
+        return float.fromhex(t[0]), float.fromhex(t[1]), float.fromhex(t[2])
+    lines, owners = [], []
+    for b in elig:
+        evs = []
+        pos = {}
+        typ = "S"
+        alive = True
+        for ev in c["events"]:
+            if ev[0] == "step":
+                for vid, x in ev[1].items():
+                    pos[int(vid)] = x
+                evs.append((typ, [pos[i] for i in b["vars"]]))
+                typ = "S"
+            elif ev[0] == "boundary":
+                typ = "B"
+            elif ev[0] == "restart":
+                typ = "R"
+        cc = {"kind": b["kind"], "vars": [{"w": 1.0, "per": False} for _ in b["vars"]], "k": b["k"], "it0": c["it0"], "events": evs,
+              "accw": bool(b.get("accw")), "dec": False, "lexp": 1.0, "N": b.get("N", 0), "tk": b.get("tk", 1.0)}
+        if b["kind"] == "walls":
+            cc.update({"hl": True, "hu": True, "lower": [-2.0] * len(b["vars"]), "upper": [2.0] * len(b["vars"]), "lwk": None,
+                       "mode": "kc" if b.get("chgk") else "none"})
+        else:
+            cc.update({"centers": b["c"], "target_centers": b["tc"], "mode": "cc" if b.get("chgc") else ("kc" if b.get("chgk") else "none")})
+        ml, d = mod.model_case(cc, wallsinit)
+        lines.append(ml)
+        owners.append(b)
+    rc, out, err = V.run_lines(exe, lines)
+    res = {}
+    if rc != 0 or len(out) != len(lines):
+        return res
+    for b, o in zip(owners, out):
+        res[b["id"]] = mod.parse_model_line(o)
+    return res
+
+
 def label_text(name, biasvars):
     """model column name -> text in the file"""
     if name.startswith("ForceConst@"):
@@ -550,6 +637,14 @@ def check_traj_case(run, c, k, impl_lines, scratch, model):
     for b in c["biases"] + [e[1] for e in c["events"] if e[0] == "addbias"]:
         biasvars["b%d" % b["id"]] = ["v%d" % i for i in b["vars"]]
     ncmp = 0
+    c06exp = c06_expectations(c)
+    deleted_at = {}
+    jj = 0
+    for ev in c["events"]:
+        if ev[0] == "step":
+            jj += 1
+        elif ev[0] == "delbias":
+            deleted_at[ev[1]] = jj
     for si, s in enumerate(segs):
         path = os.path.join(scratch, "c%ds%d.colvars.traj" % (k, si))
         flines = parse_traj(path)
@@ -563,6 +658,10 @@ def check_traj_case(run, c, k, impl_lines, scratch, model):
             if l[0] == "L":
                 lab = l[1]
             else:
+                badt = [q for q in l[2] if isinstance(q, BadToken)] + [q for v_ in l[2] if isinstance(v_, list) for q in v_ if isinstance(q, BadToken)]
+                if badt:
+                    run.violation("trajfields:not-a-number", "data line of step %d holds the token %r, which is not a number (fields run "
+                                  "together?)" % (l[1], badt[0].text), replay)
                 if lab is None:
                     run.violation("trajlabels:data-before-label", "data line of step %d precedes every label line" % l[1], replay)
                 elif len(l[2]) != len(lab):
@@ -601,6 +700,27 @@ def check_traj_case(run, c, k, impl_lines, scratch, model):
             if lab is None or len(lab) != len(l[2]) or n >= len(js):
                 continue
             j = js[n]
+            # written restraint columns against C06's proved model of the restraint at this evaluation
+            for bid, outs in c06exp.items():
+                if j >= len(outs) or j >= deleted_at.get(bid, 10 ** 9):
+                    continue
+                b = [bb for bb in c["biases"] if bb["id"] == bid][0]
+                o = outs[j]
+                chk = []
+                if "E_b%d" % bid in lab and lab.count("E_b%d" % bid) == 1:
+                    chk.append(("E_b%d" % bid, o["E"]))
+                if "W_b%d" % bid in lab and lab.count("W_b%d" % bid) == 1:
+                    chk.append(("W_b%d" % bid, o["W"]))
+                if b.get("centers") and b["kind"] != "walls":
+                    for n_, i in enumerate(b["vars"]):
+                        if lab.count("x0_v%d" % i) == 1 and sum(1 for bb in live_biases(c, j) if bb.get("centers") and i in bb["vars"]) == 1:
+                            chk.append(("x0_v%d" % i, o["C"][n_]))
+                for col, want in chk:
+                    got = l[2][lab.index(col)]
+                    run.dist("oracle:c06-model:" + col.split("_")[0])
+                    if not close(got, want, 1e-11):
+                        run.violation("trajfields:restraint-model:" + col.split("_")[0], "step %d column %s holds %r, the restraint model "
+                                      "(C06) of bias b%d has %r at that evaluation" % (l[1], col, got, bid, want), replay)
             fixed_centres_oracle(run, c, lab, l[2], l[1], replay)
             forces_energy_oracle(run, c, j, poshist[j], lab, l[2], l[1], replay, efh, l[1] == s["it_restart"])
             for v in c["vars"]:
@@ -818,6 +938,22 @@ def gen_traj_case(r, tier):
             "lagged": r.random() < 0.3}
 
 
+def gen_traj_big(r, tier):
+    """numbers wider than the 21-character columns (three-digit exponents, negative) and tiny ones: fields must stay
+    separate and parse back to the printed 14 digits"""
+    sc = 2.0 ** r.choice([340, -340, 400, 120, -500])
+    vars_ = [{"id": i, "type": "z", "value": True, "velocity": r.random() < 0.7, "tforce": r.random() < 0.7, "aforce": True,
+              "extlag": False, "energy": False} for i in range(2)]
+    biases = [{"id": 0, "kind": "harmonic", "vars": [0, 1], "c": [-0.75 * sc, 1.5 * sc], "tc": [0.0, 0.0], "k": 2.0, "energy": True,
+               "centers": True, "chgc": False, "chgk": False, "tk": 1.0, "N": 4, "accw": False}]
+    events = []
+    for _ in range(r.randint(3, 6)):
+        events.append(["step", {"0": -V.dyadic(r, 1, 4, 3) * sc, "1": V.dyadic(r, -4, 4, 3) * sc},
+                       {"0": -V.dyadic(r, 1, 3, 2) * sc, "1": V.dyadic(r, 0.5, 3, 2) * sc}])
+    return {"kind": "traj", "freq": 1, "it0": r.choice([0, 123456789012]), "dt": r.choice([0.5, 2.0]), "vars": vars_, "biases": biases,
+            "events": events, "eforce": [-sc, sc], "lagged": False, "big": True}
+
+
 # ------------------------------------------------------------------ running average cases
 def runave_scenario(c, k):
     v = {"id": 0, "type": "z", "value": True}
@@ -989,6 +1125,10 @@ def vvar_block(vtype, vid, extra=()):
         L += ["  }"]
     elif vtype == "vec":
         L += ["  distanceVec {", "    group1 { atomNumbers %d }" % b, "    group2 { atomNumbers %d }" % a, "  }"]
+    elif vtype == "cart":
+        L += ["  cartesian {", "    atoms { atomNumbers %d %d }" % (a, b), "  }"]
+    elif vtype == "quat":
+        L += ["  orientation {", "    atoms { atomNumbers 5 6 7 8 }", "    refPositions (1.0, 0.0, 0.0) (0.0, 1.0, 0.0) (0.0, 0.0, 1.0) (-1.0, -1.0, -1.0)", "  }"]
     else:
         L += ["  distanceDir {", "    group1 { atomNumbers %d }" % b, "    group2 { atomNumbers %d }" % a, "  }"]
     L.append("}")
@@ -1000,7 +1140,7 @@ def runavev_scenario(c, k):
     dummy = vvar_block("z", 1)
     main = vvar_block(c["vtype"], 0, extra)
     seg = 0
-    L = ["echo CASE %d" % k, "natoms 4", "temperature 300", "dt 1.0", "prefix c%ds%d" % (k, seg), "new"]
+    L = ["echo CASE %d" % k, "natoms 8", "temperature 300", "dt 1.0", "prefix c%ds%d" % (k, seg), "new"]
     if c["it0"]:
         L.append("setstep %d" % c["it0"])
     L += heredoc(["colvarsTrajFrequency 0"] + dummy + (main if c["t0"] == 0 else []))
@@ -1011,7 +1151,10 @@ def runavev_scenario(c, k):
             if nstep == c["t0"] and c["t0"] > 0:
                 L += heredoc(main)
             x = ev[1]
-            if isinstance(x, (list, tuple)):
+            if c["vtype"] == "quat":
+                for a_, pp in enumerate(x):
+                    L.append("pos %d %s %s %s" % (5 + a_, hx(pp[0]), hx(pp[1]), hx(pp[2])))
+            elif isinstance(x, (list, tuple)):
                 L.append("pos 1 %s %s %s" % (hx(x[0]), hx(x[1]), hx(x[2])))
             else:
                 L.append("pos 1 0 0 %s" % hx(x))
@@ -1036,6 +1179,10 @@ def vdist2(vtype, a, b):
         cs = sum(x * y for x, y in zip(a, b))
         cs = max(-1.0, min(1.0, cs))
         return math.acos(cs) ** 2
+    if vtype == "quat":
+        cs = sum(x * y for x, y in zip(a, b))
+        om = math.acos(max(-1.0, min(1.0, cs)))
+        return om * om if cs > 0.0 else (math.pi - om) ** 2
     return sum((x - y) ** 2 for x, y in zip(a, b))
 
 
@@ -1082,14 +1229,16 @@ def check_runavev_case(run, c, k, impl_lines, scratch, model):
             first, boundary = True, False
     segs.append(curseg)
     vt = c["vtype"]
-    kind = {"z": "scalar", "zper": "periodic %s" % hx(PERIOD), "vec": "vector3", "unit": "unit"}[vt]
+    kind = {"z": "scalar", "zper": "periodic %s" % hx(PERIOD), "vec": "vector3", "unit": "unit", "cart": "vector3", "quat": "quat"}[vt]
     # imposed values (oracle): the implementation's values must be the imposed ones
     jj = 0
     for ev in c["events"]:
         if ev[0] != "step":
             continue
-        if jj < len(vals) and vals[jj]["v0"] is not None and vt != "unit":
+        if jj < len(vals) and vals[jj]["v0"] is not None and vt not in ("unit", "quat"):
             want = [wrapz(ev[1])] if vt == "zper" else ([float(ev[1])] if vt == "z" else [float(q) for q in ev[1]])
+            if vt == "cart":
+                want = want + [0.0, 0.0, 0.0]
             if not close(vals[jj]["v0"], want, OTOL):
                 run.mismatch("runavev-values", c, vals[jj]["v0"], want)
                 return 0
@@ -1150,7 +1299,7 @@ def check_runavev_case(run, c, k, impl_lines, scratch, model):
                 wantsd = math.sqrt(sum((q - m) ** 2 for q in y) / (L - 1)) if L > 1 else None
             else:
                 m = [sum(w[i] for w in win) / L for i in range(len(win[0]))]
-                if vt == "unit":
+                if vt in ("unit", "quat"):
                     nrm = math.sqrt(sum(q * q for q in m))
                     m = [q / nrm for q in m]
                 if not close(av, m, 1e-9):
@@ -1179,7 +1328,7 @@ def check_runavev_case(run, c, k, impl_lines, scratch, model):
 
 
 def gen_runavev_case(r, tier):
-    vt = r.choice(["z", "zper", "zper", "vec", "unit"])
+    vt = r.choice(["z", "zper", "zper", "vec", "unit", "cart", "quat"])
     L = r.choice([1, 2, 2, 3, 4])
     stride = r.choice([1, 2, 2, 3])
     t0 = r.choice([0, 0, 1, 2, 3, 5])
@@ -1193,6 +1342,16 @@ def gen_runavev_case(r, tier):
         if vt == "zper":
             # a band narrower than half a period, anywhere (often across the boundary +-4)
             return center + V.dyadic(r, -1.5, 1.5, 3)
+        if vt == "quat":
+            # the four reference atoms, rotated about z by a quarter turn or not, plus noise
+            ref = [(1.0, 0.0, 0.0), (0.0, 1.0, 0.0), (0.0, 0.0, 1.0), (-1.0, -1.0, -1.0)]
+            rot = r.choice([0, 0, 1])
+            out = []
+            for (x_, y_, z_) in ref:
+                if rot:
+                    x_, y_ = -y_, x_
+                out.append([x_ + V.dyadic(r, -0.25, 0.25, 4), y_ + V.dyadic(r, -0.25, 0.25, 4), z_ + V.dyadic(r, -0.25, 0.25, 4)])
+            return out
         while True:
             v = [V.dyadic(r, -4, 4, 2) for _ in range(3)]
             if sum(abs(q) for q in v) > 0.5:
@@ -1217,8 +1376,14 @@ def out_scenario(c, k):
     v = ["colvar {", "  name v0", "  lowerBoundary -16.0", "  upperBoundary 16.0", "  width 1.0", "  corrFunc on", "  corrFuncType coordinate",
          "  corrFuncLength 1", "  corrFuncStride 1", "  distanceZ {", "    main { atomNumbers 1 }", "    ref { dummyAtom (0,0,0) }", "    axis (0,0,1)", "  }", "}"]
     bl = []
+    if c.get("abf"):
+        v = v[:-6] + ["  distanceZ {", "    main { atomNumbers 1 }", "    ref { dummyAtom (0,0,0) }", "    axis (0,0,1)", "    oneSiteTotalForce on", "  }", "}"]
+        bl += ["abf {", "  name a0", "  colvars v0", "  fullSamples 1", "  outputFreq %d" % c["abf"]["F"], "  historyFreq %d" % c["abf"]["H"], "}"]
     for b, f in c["biases"]:
         bl += ["histogram {", "  name b%d" % b, "  colvars v0", "  outputFreq %d" % f, "}"]
+    if c.get("meta"):
+        bl += ["metadynamics {", "  name m0", "  colvars v0", "  hillWeight 0.125", "  hillWidth 1.0", "  newHillFrequency %d" % c["meta"]["h"],
+               "  outputFreq %d" % c["meta"]["F"], "  writeHillsTrajectory on", "  keepFreeEnergyFiles on", "}"]
     L = ["echo CASE %d" % k, "natoms 2", "temperature 300", "dt 1.0", "prefix c%ds0" % k, "restartfreq %d" % c["R"], "new", "capture"]
     if c["it0"]:
         L.append("setstep %d" % c["it0"])
@@ -1228,8 +1393,12 @@ def out_scenario(c, k):
             L += ["pos 1 0 0 %s" % hx(ev[1]), "step", "wlog"]
         elif ev[0] == "boundary":
             L.append("runboundary")
-    L += ["postrun", "wlog", "flush", "restartfreq 0", "echo END %d" % k]
+    L += ["postrun", "wlog", "gdump", "flush", "restartfreq 0", "echo END %d" % k]
     return L
+
+
+def calc_its_of(evs):
+    return [i for t, i in evs if t == "C"]
 
 
 def check_out_case(run, c, k, impl_lines, scratch, model):
@@ -1262,13 +1431,125 @@ def check_out_case(run, c, k, impl_lines, scratch, model):
             boundary = True
     evs.append(("E", it))
     last = it
-    line = "OUT %d %d %d %s %d %s" % (c["R"], c["it0"], len(c["biases"]), " ".join("%d %d" % (b, f) for b, f in c["biases"]), len(evs),
+    mb = list(c["biases"])
+    if c.get("meta"):
+        mb.append((100, c["meta"]["F"]))
+    if c.get("abf"):
+        mb.append((200, c["abf"]["F"]))
+    line = "OUT %d %d %d %s %d %s" % (c["R"], c["it0"], len(mb), " ".join("%d %d" % (b, f) for b, f in mb), len(evs),
                                     " ".join("%s %d" % e for e in evs))
     rc, mout, err = V.run_lines(model, [line])
     if rc != 0 or len(mout) != 1:
         run.mismatch("out-model", c, err[-300:], mout[:2])
         return 0
-    want = mout[0].split()
+    want_all = mout[0].split()
+    want = [w for w in want_all if not w.startswith("b100@") and not w.startswith("b200@")]
+    dedup_its = []
+    xs_by_it = {}
+    itx = c["it0"]
+    first, boundary = True, False
+    for ev in c["events"]:
+        if ev[0] == "step":
+            if first:
+                first = False
+            elif not boundary:
+                itx += 1
+            boundary = False
+            if itx not in xs_by_it:
+                dedup_its.append(itx)
+                xs_by_it[itx] = ev[1]
+        else:
+            boundary = True
+    if c.get("meta"):
+        # (a) the step-stamped free-energy files on disk are exactly the steps at which the model says the bias writes
+        stamps = sorted(int(f.split(".")[-2]) for f in os.listdir(scratch) if f.startswith("c%ds0." % k) and f.endswith(".pmf")
+                        and len(f.split(".")) == 3 and f.split(".")[-2].isdigit())
+        mw = sorted(set(int(w.split("@")[1]) for w in want_all if w.startswith("b100@")))
+        run.dist("oracle:meta-pmf-stamps")
+        if stamps != mw:
+            run.mismatch("outfiles-meta", c, stamps, mw)
+        F = c["meta"]["F"]
+        ow = sorted(set([i for i in calc_its_of(evs) if F and i > c["it0"] and i % F == 0] + [last]))
+        if stamps != ow:
+            run.violation("outfiles:meta-pmf-steps", "free-energy files stamped with the steps %s; outputFreq %d over the steps %d..%d and the end "
+                          "of the run give %s" % (stamps, F, c["it0"], last, ow), replay)
+        # (b) the hills trajectory left by the run: one record per deposited hill (C05: steps after the first that are
+        # multiples of newHillFrequency), stamped with its step, centred at the variable's value of that step
+        hp = os.path.join(scratch, "c%ds0.colvars.m0.hills.traj" % k)
+        recs = []
+        if os.path.exists(hp):
+            for ln in open(hp):
+                t = ln.split()
+                if t and not t[0].startswith("#"):
+                    recs.append((int(t[0]), float(t[1])))
+        # the last free-energy file against the tabulated hills energy at the end of the run: F = max(E) - E
+        gm = [l for l in impl_lines if l.startswith("GM m0 ")]
+        lastp = os.path.join(scratch, "c%ds0.%d.pmf" % (k, last))
+        if gm and os.path.exists(lastp):
+            en = [float.fromhex(q) for q in gm[-1].split("energy=")[1].split(",")]
+            fp = [float(ln.split()[1]) for ln in open(lastp) if ln.split() and not ln.startswith("#")]
+            mx = max(en)
+            wp = [mx - e_ for e_ in en]
+            run.dist("oracle:meta-pmf-vs-grid")
+            if len(fp) != len(wp) or any(abs(a - b) > 1e-12 * max(1.0, abs(mx)) for a, b in zip(fp, wp)):
+                run.violation("outfiles:meta-pmf-content", "the free-energy file of step %d differs from max(E) - E of the tabulated hills energy "
+                              "(first values %s vs %s)" % (last, fp[:5], wp[:5]), replay)
+        h = c["meta"]["h"]
+        wantrec = [(i, float(xs_by_it[i])) for i in dedup_its if i > c["it0"] and i % h == 0]
+        run.dist("oracle:hills-traj")
+        if [r_[0] for r_ in recs] != [w_[0] for w_ in wantrec]:
+            run.violation("outfiles:hills-traj-steps", "hills trajectory records at steps %s, hills are deposited at %s" %
+                          ([r_[0] for r_ in recs], [w_[0] for w_ in wantrec]), replay)
+        elif any(not close(a[1], b[1], OTOL) for a, b in zip(recs, wantrec)):
+            run.violation("outfiles:hills-traj-centres", "hills trajectory %s, deposited hills %s" % (recs[:6], wantrec[:6]), replay)
+    if c.get("abf"):
+        # the history files get one block per write at a multiple of historyFreq (not twice for one step)
+        H = c["abf"]["H"]
+        aw = [int(w.split("@")[1]) for w in want_all if w.startswith("b200@")]
+        rc2, m2, err2 = V.run_lines(model, ["ABFHIST %d %d %s" % (H, len(aw), " ".join(str(i) for i in aw))])
+        hsteps = [int(q) for q in m2[0].split()] if rc2 == 0 and m2 else None
+        osteps = []
+        for i in aw:
+            if i % H == 0 and (not osteps or osteps[-1] != i):
+                osteps.append(i)
+        if hsteps != osteps:
+            run.mismatch("outfiles-abf-history", c, osteps, hsteps)
+            hsteps = osteps
+        cp = os.path.join(scratch, "c%ds0.hist.count" % k)
+        nblocks = 0
+        if os.path.exists(cp):
+            nblocks = sum(1 for ln in open(cp) if ln.strip() == "# 1")
+        run.dist("oracle:abf-history-blocks")
+        if nblocks != len(hsteps):
+            run.violation("outfiles:abf-history", "%d blocks in the ABF history file; outputFreq %d, historyFreq %d over steps %d..%d give writes at %s"
+                          % (nblocks, c["abf"]["F"], H, c["it0"], last, hsteps), replay)
+        # content of the final .count file: the samples are the steps whose total force could be attributed
+        cf = os.path.join(scratch, "c%ds0.count" % k)
+        if os.path.exists(cf):
+            tot = 0
+            for ln in open(cf):
+                t = ln.split()
+                if t and not t[0].startswith("#"):
+                    tot += int(float(t[1]))
+            # content against the internal grids at the writing step (the end of the run)
+            ga = [l for l in impl_lines if l.startswith("GA a0 ")]
+            if ga:
+                kv = dict(t.split("=", 1) for t in ga[-1].split()[2:])
+                smp = [int(q) for q in kv["samples"].split(",")]
+                grd = [float.fromhex(q) for q in kv["gradients"].split(",")]
+                fcount = [int(float(ln.split()[1])) for ln in open(cf) if ln.split() and not ln.startswith("#")]
+                gf = os.path.join(scratch, "c%ds0.grad" % k)
+                fgrad = [float(ln.split()[1]) for ln in open(gf) if ln.split() and not ln.startswith("#")] if os.path.exists(gf) else []
+                wgrad = [(g / n_ if n_ else 0.0) for g, n_ in zip(grd, smp)]
+                run.dist("oracle:abf-file-vs-grids")
+                if fcount != smp:
+                    run.violation("outfiles:abf-count-content", "the .count file %s differs from the stored counts %s" % (fcount, smp), replay)
+                elif len(fgrad) != len(wgrad) or any(not close(a, b) for a, b in zip(fgrad, wgrad)):
+                    run.violation("outfiles:abf-grad-content", "the .grad file %s differs from the stored mean forces %s" % (fgrad[:8], wgrad[:8]), replay)
+            nsteps = len([i for i in dedup_its if i > c["it0"]])
+            run.dist("oracle:abf-count-total")
+            if tot != nsteps:
+                run.violation("outfiles:abf-count", "the final .count file holds %d samples, %d steps after the first were sampled" % (tot, nsteps), replay)
     # ---- oracle: documented frequencies, final files describe the final step, nothing written twice for one calc
     def steps_of(kind):
         return [int(g.split("@")[1]) for g in got if g.split("@")[0] == kind]
@@ -1308,7 +1589,15 @@ def gen_out_case(r, tier):
             events += [["boundary"], list(last)]
         else:
             events.append(["step", V.dyadic(r, -8, 8, 2)])
-    return {"kind": "out", "R": R, "biases": biases, "it0": it0, "events": events}
+    c = {"kind": "out", "R": R, "biases": biases, "it0": it0, "events": events}
+    u = r.random()
+    if u < 0.35:
+        c["meta"] = {"h": r.choice([1, 2, 3]), "F": r.choice([0, 2, 3, 4])}
+    elif u < 0.6:
+        F = r.choice([1, 2, 3])
+        c["abf"] = {"F": F, "H": F * r.choice([1, 2, 3])}
+        c["biases"] = []
+    return c
 
 
 
@@ -1688,6 +1977,8 @@ def run_cases(run, cases, unit, model, scratch):
         run.dist(c["kind"])
         if c["kind"] == "traj":
             run.dist("traj:nbias=%d" % len(c["biases"]))
+            if c.get("big"):
+                run.dist("traj:wide-numbers")
             for e in c["events"]:
                 if e[0] != "step":
                     run.dist("traj:event:" + e[0])
@@ -1731,6 +2022,8 @@ def check(run):
     mult = 1 if run.tier == "quick" else 12
     for _ in range(140 * mult):
         cases.append(gen_traj_case(r, run.tier))
+    for _ in range(12 * mult):
+        cases.append(gen_traj_big(r, run.tier))
     for _ in range(100 * mult):
         cases.append(gen_runave_case(r, run.tier))
     for _ in range(100 * mult):
